@@ -9,7 +9,7 @@ MANIFEST = dict(
          "(split_respects_clause_order, for pipelines of any length); the scan of the REAL splitter - with its requirement list, complexity caps and can_materialize, mirror Model.Anchor, replayed call by call - cuts a suffix of the pipeline whose kinds are a suffix of what the table scan keeps (real_splitter_cuts_a_suffix, real_splitter_refines_table_scan: it stops where the table says or earlier, whatever the requirements), so the clause-order theorem holds for the block the real splitter forms (real_splitter_respects_clause_order); clause-order evaluation of an assembled SELECT block equals "
          "pipeline-order evaluation of every admissible segment incl. WHERE/GROUP BY/HAVING/ORDER BY/LIMIT, on the reference "
          "semantics itself (assemble_correct_rel, assemble_correct_rel_perm for sorts dropped before an aggregate, "
-         "assemble_correct_rel_of_split linking admissibility to the split table); any cut of a pipeline into admissible blocks (nested sub-queries / CTEs) denotes the rows of the pipeline, so the choice of split points cannot matter (chain_correct_rel, chain_cut_independent); the join-to-INTERSECT rewrite keeps the same rows as a set exactly on NULL-free rows (join_all_mem_iff) and differs with NULLs / duplicates (setop_rewrite_*_counterexample, listed finding); column-id redirects at a split commute with evaluation (split_glue_rename); the reorder pass of the back end (mirror Model.Reorder) moves a compute only over sorts and - if it is plain - takes (reorder_moves_only_over_sorts_and_takes, nonplain_never_passes_take), such a move keeps the rows of the reference semantics for runs of any length (reorder_step_keeps_rows) and the restriction is necessary (window_not_hoisted_over_take); the stages of preprocess that introduce DISTINCT / ROW_NUMBER filters / set operations (mirror Model.Preprocess): DISTINCT only for the first row of each group without a sort when the partition is the final frame and no later transform reads a column outside of it (distinct_only_for_first_row_of_whole_frame, later_transforms_read_only_the_partition; the second condition is the repair ea940a9 - before it the pass produced SELECT DISTINCT a, b for a group over a: distinct_not_chosen_when_a_later_transform_reads_outside), DISTINCT ON only for one row on a dialect that has it (distinct_on_only_for_one_row), the first row of every group of ALL columns is each distinct row once (group_take_first_over_all_columns_is_distinct, tables of any size) and the restriction is necessary (distinct_needs_all_columns_counterexample), take 1 keeps exactly one row per key whichever row it is (group_take_one_keys_unique), a positional take is the filter on the 1-based row number and the condition written is that range (row_number_filter_is_positional_take, range_filter_means_the_range), every conjunct of the EXCEPT guard (except_rewrite_guard), no Append and no partitioned Take survives the four stages whatever the pipeline and the dialect flags (stages_leave_only_placeable_transforms), prune_inputs keeps of every relation instance exactly the columns its own transform or a transform behind it mentions (prune_keeps_what_is_mentioned_behind), the anti-join is EXCEPT as a set exactly on NULL-free rows (anti_join_is_except_on_null_free_rows, except_rewrite_null_counterexample); the clause assembly of translate_select_pipeline (mirror Model.SelectPipe): plucking the transforms by kind places every clause where placing them one after the other does - WHERE = the filters in front of the aggregate, HAVING = those after it, GROUP BY its partition, ORDER BY the last sort, LIMIT / OFFSET the composition of all takes - on every segment with at most one aggregate and no sort in front of it (pluck_is_sequential_placement; the first hypothesis follows from the split table: table_block_has_at_most_one_aggregate, real_block_has_at_most_one_aggregate; pluck_keeps_a_stale_sort shows the second one is needed and fails on the unchanged tree), and the push of the block theorem places like that sequential placement (push_places_like_pushK, assemble_places_like_pushK): the real clause assembly is thereby tied to assemble_correct_rel; documented edge cases "
+         "assemble_correct_rel_of_split linking admissibility to the split table); any cut of a pipeline into admissible blocks (nested sub-queries / CTEs) denotes the rows of the pipeline, so the choice of split points cannot matter (chain_correct_rel, chain_cut_independent); the join-to-INTERSECT rewrite keeps the same rows as a set exactly on NULL-free rows (join_all_mem_iff) and differs with NULLs / duplicates (setop_rewrite_*_counterexample, listed finding); column-id redirects at a split commute with evaluation (split_glue_rename); the reorder pass of the back end (mirror Model.Reorder) moves a compute only over sorts and - if it is plain - takes (reorder_moves_only_over_sorts_and_takes, nonplain_never_passes_take), such a move keeps the rows of the reference semantics for runs of any length (reorder_step_keeps_rows) and the restriction is necessary (window_not_hoisted_over_take); the stages of preprocess that introduce DISTINCT / ROW_NUMBER filters / set operations (mirror Model.Preprocess): DISTINCT only for the first row of each group without a sort when the partition is the final frame and no later transform reads a column outside of it (distinct_only_for_first_row_of_whole_frame, later_transforms_read_only_the_partition; the second condition is the repair ea940a9 - before it the pass produced SELECT DISTINCT a, b for a group over a: distinct_not_chosen_when_a_later_transform_reads_outside), DISTINCT ON only for one row on a dialect that has it (distinct_on_only_for_one_row), the first row of every group of ALL columns is each distinct row once (group_take_first_over_all_columns_is_distinct, tables of any size) and the restriction is necessary (distinct_needs_all_columns_counterexample), take 1 keeps exactly one row per key whichever row it is (group_take_one_keys_unique), a positional take is the filter on the 1-based row number and the condition written is that range (row_number_filter_is_positional_take, range_filter_means_the_range), every conjunct of the EXCEPT guard (except_rewrite_guard), no Append and no partitioned Take survives the four stages whatever the pipeline and the dialect flags (stages_leave_only_placeable_transforms), prune_inputs keeps of every relation instance exactly the columns its own transform or a transform behind it mentions (prune_keeps_what_is_mentioned_behind), the anti-join is EXCEPT as a set exactly on NULL-free rows (anti_join_is_except_on_null_free_rows, except_rewrite_null_counterexample); the clause assembly of translate_select_pipeline (mirror Model.SelectPipe): plucking the transforms by kind places every clause where placing them one after the other does - WHERE = the filters in front of the aggregate, HAVING = those after it, GROUP BY its partition, ORDER BY the last sort, LIMIT / OFFSET the composition of all takes - on every segment with at most one aggregate and no sort in front of it (pluck_is_sequential_placement; the first hypothesis follows from the split table: table_block_has_at_most_one_aggregate, real_block_has_at_most_one_aggregate; pluck_keeps_a_stale_sort shows the second one is needed and fails on the unchanged tree), and the push of the block theorem places like that sequential placement (push_places_like_pushK, assemble_places_like_pushK), and the single condition filter_of_conditions builds from the filters of a clause (e1 AND (e2 AND ..)) is true on a row exactly when every filter is (joined_condition_means_all_filters, three-valued, any number of filters): the real clause assembly is thereby tied to assemble_correct_rel; documented edge cases "
          "on the reference semantics. Ties: every recorded call of translate_select_pipeline is replayed through Model.SelectPipe.parts; every call of preprocess::reorder, split_off_back and anchor_split and every stage call prune_inputs / distinct / union / except / intersect of preprocess recorded while compiling a corpus (cargo feature verif; five dialects for the stages) is replayed through the Lean mirrors (exact agreement); `group K (take 1)` followed by row-wise transforms is judged against the set of ADMISSIBLE results (one row per group, a row of the group pushed through the tail); the reference semantics Model.Rel.evalSrc (Lean, executable) is compared with the rows "
          "SQLite returns for the SQL the real compiler emits, on generated programs x database instances (sqlite and generic targets).",
     note="assemble_correct_rel* are proved on Model.Rel itself (filter/derive/select/sort/take/aggregate/group-aggregate with HAVING; "
@@ -94,7 +94,7 @@ def run(ctx):
                            "anti_join_is_except_on_null_free_rows", "except_rewrite_null_counterexample", "group_take_one_keys_unique",
                            "pluck_is_sequential_placement", "pluck_keeps_a_stale_sort", "push_places_like_pushK", "assemble_places_like_pushK",
                            "stages_leave_only_placeable_transforms", "real_splitter_cuts_a_suffix", "real_splitter_refines_table_scan",
-                           "real_splitter_respects_clause_order", "table_block_has_at_most_one_aggregate", "real_block_has_at_most_one_aggregate", "prune_keeps_what_is_mentioned_behind"])
+                           "real_splitter_respects_clause_order", "table_block_has_at_most_one_aggregate", "real_block_has_at_most_one_aggregate", "prune_keeps_what_is_mentioned_behind", "joined_condition_means_all_filters"])
     ctx.rule = ("random well-scoped programs of the relational core (from/select/derive/filter/sort/take/aggregate/group/join/append, "
                 "let tables, 1-7 transforms) with resolved positional form for the Lean reference semantics, x random database instances "
                 "(0-7 rows, NULLs, duplicates, empty tables); the real SQL is executed on SQLite and compared with Model.Rel.evalSrc as a "
